@@ -317,7 +317,7 @@ func retLeLenParams(f *ssa.Function, idx, ei int, okOnly bool, ptrBits, depth in
 			if !ok || idx >= len(ret.Results) {
 				continue
 			}
-			if okOnly && ei < len(ret.Results) && definitelyNonNilErr(ret.Results[ei], 0) {
+			if okOnly && ei < len(ret.Results) && nonNilErrAtReturn(ret, ei) {
 				continue
 			}
 			n++
@@ -857,7 +857,7 @@ func returnLenRange(f *ssa.Function, idx, ei int, okOnly bool, ptrBits, depth in
 		if !ok || idx >= len(ret.Results) {
 			continue
 		}
-		if okOnly && ei >= 0 && ei < len(ret.Results) && definitelyNonNilErr(ret.Results[ei], 0) {
+		if okOnly && ei >= 0 && ei < len(ret.Results) && nonNilErrAtReturn(ret, ei) {
 			continue
 		}
 		n++
